@@ -318,6 +318,18 @@ func pairings(rng *rand.Rand, nBig int) {
 		rhs := new(bn.GT).ScalarMult(basePair, ab)
 		emit("PairBig", map[string]interface{}{"a": le32(a), "b": le32(b), "bilinear": bn.PairIsEuqal(lhs, rhs), "isOne": one(lhs)})
 	}
+	// e(P, -Q) = e(P, Q)^-1 (G2 negation is exported by the curve package, unused by the node)
+	{
+		pP := new(bn.G1).ScalarBaseMult(big.NewInt(3))
+		qQ := new(bn.G2).ScalarBaseMult(big.NewInt(5))
+		qAff := new(bn.G2)
+		if _, err := qAff.Unmarshal(qQ.Marshal()); err != nil {
+			vutil.Fatalf("G2 round trip: %v", err)
+		}
+		lhs := bn.Pair(pP, new(bn.G2).Neg(qAff))
+		rhs := new(bn.GT).Neg(bn.Pair(pP, qAff))
+		emit("PairNeg", map[string]interface{}{"inverse": bn.PairIsEuqal(lhs, rhs)})
+	}
 	// comparison of pairing values: a difference in any of the twelve coordinates must be seen
 	g := bn.Pair(new(bn.G1).ScalarBaseMult(big.NewInt(5)), new(bn.G2).ScalarBaseMult(big.NewInt(7)))
 	gb := g.Marshal()
@@ -502,6 +514,126 @@ func concurrency(rng *rand.Rand, workers, iterations int) {
 	}
 }
 
+// sharedObjects: several goroutines verify with ONE signature object that comes straight from Sign or
+// RecoverGroupSignature (projective coordinates, never serialised) and with ONE public key object from
+// GeneratePubkey / AggregatePubkeys. Verification only reads its arguments as far as a caller can tell.
+func sharedObjects(rng *rand.Rand, goroutines, rounds int) {
+	for _, kind := range []string{"signatureFromSign", "signatureFromRecover", "pubkeyFromGenerate", "pubkeyFromAggregate"} {
+		failures, corrupted := 0, 0
+		for r := 0; r < rounds; r++ {
+			seed := make([]byte, 32)
+			rng.Read(seed)
+			sk := *groupsig.NewSeckeyFromRand(base.RandFromBytes(seed))
+			rng.Read(seed)
+			sk2 := *groupsig.NewSeckeyFromRand(base.RandFromBytes(seed))
+			msg := make([]byte, 32)
+			rng.Read(msg)
+			var sig groupsig.Signature
+			var pk groupsig.Pubkey
+			var refSig, refPk []byte
+			switch kind {
+			case "signatureFromSign":
+				sig = groupsig.Sign(sk, msg)
+				pk = *groupsig.GeneratePubkey(sk)
+				pk.Serialize()
+			case "signatureFromRecover":
+				// a 1-of-1 "group": the recovered signature is the share itself, produced by the recovery code
+				id := groupsig.DeserializeID(seed)
+				one := groupsig.Sign(sk, msg)
+				sig = *groupsig.RecoverGroupSignature(map[string]groupsig.Signature{id.GetHexString(): one}, 1)
+				pk = *groupsig.GeneratePubkey(sk)
+				pk.Serialize()
+			case "pubkeyFromGenerate":
+				pk = *groupsig.GeneratePubkey(sk)
+				s := groupsig.Sign(sk, msg)
+				sig = *groupsig.DeserializeSign(s.Serialize())
+			case "pubkeyFromAggregate":
+				agg := groupsig.AggregateSeckeys([]groupsig.Seckey{sk, sk2})
+				pk = *groupsig.AggregatePubkeys([]groupsig.Pubkey{*groupsig.GeneratePubkey(sk), *groupsig.GeneratePubkey(sk2)})
+				s := groupsig.Sign(*agg, msg)
+				sig = *groupsig.DeserializeSign(s.Serialize())
+			}
+			// references from independent objects
+			{
+				var k groupsig.Seckey = sk
+				if kind == "pubkeyFromAggregate" {
+					k = *groupsig.AggregateSeckeys([]groupsig.Seckey{sk, sk2})
+				}
+				rs := groupsig.Sign(k, msg)
+				refSig = rs.Serialize()
+				refPk = groupsig.GeneratePubkey(k).Serialize()
+			}
+			fails := make([]int, goroutines)
+			var wg sync.WaitGroup
+			start := make(chan struct{})
+			for g := 0; g < goroutines; g++ {
+				wg.Add(1)
+				go func(g int) {
+					defer wg.Done()
+					defer func() {
+						if p := recover(); p != nil {
+							fails[g]++
+						}
+					}()
+					<-start
+					if !groupsig.VerifySig(pk, msg, sig) {
+						fails[g]++
+					}
+				}(g)
+			}
+			close(start)
+			wg.Wait()
+			for _, f := range fails {
+				failures += f
+			}
+			if !bytes.Equal(sig.Serialize(), refSig) || !bytes.Equal(pk.Serialize(), refPk) {
+				corrupted++
+			}
+		}
+		emit("SharedObject", map[string]interface{}{"kind": kind, "goroutines": goroutines, "rounds": rounds,
+			"verifyFailures": failures, "objectsCorrupted": corrupted})
+	}
+}
+
+// parseLeftovers: what a failed public-key parse leaves behind, and whether a key has one encoding
+// (observations beyond the statement).
+func parseLeftovers(rng *rand.Rand, w *world) {
+	honest := w.pk[1].Serialize()
+	off := append([]byte(nil), honest...)
+	y := new(big.Int).SetBytes(off[96:128])
+	y.Add(y, big.NewInt(1)).Mod(y, bn.P)
+	y.FillBytes(off[96:128])
+	for _, c := range []struct {
+		class string
+		b     []byte
+	}{{"offcurve", off}, {"truncated", honest[:100]}} {
+		var pk groupsig.Pubkey
+		err := pk.Deserialize(c.b)
+		emit("FailedKeyParse", map[string]interface{}{"class": c.class, "err": err != nil, "isValidAfterwards": pk.IsValid()})
+	}
+	sig := w.honestSig(1, 1)
+	for _, enc := range []string{"overlong", "nonreduced"} {
+		for arg := 0; arg < 4; arg++ {
+			a := arg
+			if enc == "overlong" {
+				a = 1 + 31*(arg%2)
+			}
+			kb, ok := encode(rng, honest, enc, a, 4)
+			if !ok {
+				continue
+			}
+			var pk groupsig.Pubkey
+			err := pk.Deserialize(kb)
+			v := false
+			if err == nil {
+				v, _ = verify(pk, w.msgs[1], sig)
+			}
+			emit("KeyEncoding", map[string]interface{}{"enc": enc, "parses": err == nil, "verifies": v,
+				"reserializesToInput": err == nil && bytes.Equal(pk.Serialize(), kb)})
+		}
+	}
+}
+
 type msgPair struct {
 	Rel  string `json:"rel"`
 	Salt int    `json:"salt"`
@@ -659,6 +791,10 @@ func main() {
 	}
 	if *conc > 0 {
 		concurrency(rng, 8, *conc)
+		sharedObjects(rng, 6, *conc)
+		if *extras {
+			parseLeftovers(rng, newWorld(rng))
+		}
 	}
 	if len(mcases) > 0 {
 		// first thing related messages meet in this process is each other (before the history runs)
@@ -667,7 +803,7 @@ func main() {
 		history(rng, w, *others)
 	}
 	tr.Close()
-	fmt.Printf("c14: keysig=%d keySigAccepted=%d concurrent=%d msgpair=%d history=%d verify=%d notApplicable=%d g1parse=%d roundtrip=%d pair=%d pairbig=%d gteq=%d events=%d\n",
-		counts["KeySig"], counts["keySigAccepted"], counts["Concurrent"], counts["MsgPair"], counts["History"],
+	fmt.Printf("c14: shared=%d keysig=%d keySigAccepted=%d concurrent=%d msgpair=%d history=%d verify=%d notApplicable=%d g1parse=%d roundtrip=%d pair=%d pairbig=%d gteq=%d events=%d\n",
+		counts["SharedObject"], counts["KeySig"], counts["keySigAccepted"], counts["Concurrent"], counts["MsgPair"], counts["History"],
 		counts["Verify"], counts["notApplicable"], counts["G1Parse"], counts["RoundTrip"], counts["Pair"], counts["PairBig"], counts["GtEq"], tr.N)
 }
